@@ -9,7 +9,8 @@ From JsonSyntax Require Import Base.Prelude Base.Value Base.Unicode Model.Kind S
   Model.Printer Spec.Minimal Spec.Layout Model.Unordered Spec.Multimap
   Base.Float64 Spec.EcmaNumber Spec.Jcs Model.Canon
   Spec.NumSpelling Spec.SerdeData Spec.SerdeJsonValue Spec.SerdeRoundTrip Model.SerdeValue
-  Model.Macro Model.MacroFloat Spec.MacroDoc Spec.SerdeTyped Model.Serde.
+  Model.Macro Model.MacroFloat Spec.MacroDoc Spec.SerdeTyped Model.Serde
+  Spec.SerdeShape32 Spec.SerdeDupKeys.
 
 Extraction Language OCaml.
 Set Extraction KeepSingleton.
@@ -58,4 +59,6 @@ Extraction "model.ml"
   to_value_ref from_value_ref ser_sj from_sj_ref shape_ref shape_sj_ref shape_eqb has_type finite_floats
   tser de from_tsj shape_of shape_of_sj fmt_f64_ref fmt_f32_ref fmt_sj_ref de_f64 de_f32 f64_norm f32_norm
   num_key key_of_f64 nkey_eqb f64_of_f32 f32_of_f64
-  no_f32 known_class norm sort_maps num_event tsd_eqb null_like.
+  no_f32 known_class norm sort_maps num_event tsd_eqb null_like
+  sgl sf32_bits shape32 shape32_sj f64_agrees32 f64_leaves_agree32 f64_leaves no_f64 key_of_float
+  last_wins key_eqb drop_earlier has_repeated_key.
